@@ -1,0 +1,358 @@
+//! Verification hooks for the decoding side. Only compiled with the `verif_hooks` feature.
+//!
+//! Thin wrappers that make crate private types and functions usable from an external monitor.
+//! No logic lives here, every function forwards to the real implementation.
+
+use super::decode_buffer::DecodeBuffer;
+use super::ringbuffer::RingBuffer;
+use crate::io::{Error, Read, Write};
+use alloc::format;
+use alloc::string::String;
+use alloc::vec::Vec;
+
+pub use super::sequence_execution::verif_hooks::do_offset_history;
+pub use super::sequence_section_decoder::verif_hooks::{
+    lookup_ll_code, lookup_ml_code, predefined_tables,
+};
+
+/// The ring buffer used as output window by the decoder
+pub struct Ring(RingBuffer);
+
+impl Default for Ring {
+    fn default() -> Self {
+        Self::new()
+    }
+}
+
+impl Ring {
+    pub fn new() -> Self {
+        Ring(RingBuffer::new())
+    }
+    pub fn len(&self) -> usize {
+        self.0.len()
+    }
+    pub fn is_empty(&self) -> bool {
+        self.0.len() == 0
+    }
+    pub fn free(&self) -> usize {
+        self.0.free()
+    }
+    pub fn clear(&mut self) {
+        self.0.clear()
+    }
+    pub fn reserve(&mut self, amount: usize) {
+        self.0.reserve(amount)
+    }
+    pub fn extend(&mut self, data: &[u8]) {
+        self.0.extend(data)
+    }
+    pub fn drop_first_n(&mut self, amount: usize) {
+        self.0.drop_first_n(amount)
+    }
+    pub fn as_slices(&self) -> (&[u8], &[u8]) {
+        self.0.as_slices()
+    }
+    pub fn push_back(&mut self, byte: u8) {
+        self.0.push_back(byte)
+    }
+    pub fn get(&self, idx: usize) -> Option<u8> {
+        self.0.get(idx)
+    }
+    pub fn extend_from_within(&mut self, start: usize, len: usize) {
+        self.0.extend_from_within(start, len)
+    }
+    /// # Safety
+    /// Same contract as `RingBuffer::extend_from_within_unchecked`
+    pub unsafe fn extend_from_within_unchecked(&mut self, start: usize, len: usize) {
+        unsafe { self.0.extend_from_within_unchecked(start, len) }
+    }
+    /// # Safety
+    /// Same contract as `RingBuffer::extend_from_within_unchecked_branchless`
+    pub unsafe fn extend_from_within_unchecked_branchless(&mut self, start: usize, len: usize) {
+        unsafe { self.0.extend_from_within_unchecked_branchless(start, len) }
+    }
+    pub fn extend_and_fill(&mut self, fill_with: u8, fill_length: usize) {
+        self.0.extend_and_fill(fill_with, fill_length)
+    }
+    pub fn extend_from_reader<R: Read>(
+        &mut self,
+        read: R,
+        fill_length: usize,
+    ) -> Result<(), Error> {
+        self.0.extend_from_reader(read, fill_length)
+    }
+    /// (pointer, capacity, head, tail)
+    pub fn state(&self) -> (usize, usize, usize, usize) {
+        self.0.verif_state()
+    }
+}
+
+/// The decode buffer: ring buffer + window/dictionary logic + checksum
+pub struct DecBuf(DecodeBuffer);
+
+impl DecBuf {
+    pub fn new(window_size: usize) -> Self {
+        DecBuf(DecodeBuffer::new(window_size))
+    }
+    pub fn reset(&mut self, window_size: usize) {
+        self.0.reset(window_size)
+    }
+    pub fn set_dict_content(&mut self, dict: &[u8]) {
+        self.0.dict_content.clear();
+        self.0.dict_content.extend_from_slice(dict);
+    }
+    pub fn len(&self) -> usize {
+        self.0.len()
+    }
+    pub fn is_empty(&self) -> bool {
+        self.0.len() == 0
+    }
+    pub fn push(&mut self, data: &[u8]) {
+        self.0.push(data)
+    }
+    pub fn repeat(&mut self, offset: usize, match_length: usize) -> Result<(), String> {
+        self.0
+            .repeat(offset, match_length)
+            .map_err(|e| format!("{e}"))
+    }
+    pub fn extend_and_fill(&mut self, fill_with: u8, fill_length: usize) {
+        self.0.extend_and_fill(fill_with, fill_length)
+    }
+    pub fn extend_from_reader<R: Read>(
+        &mut self,
+        read: R,
+        fill_length: usize,
+    ) -> Result<(), Error> {
+        self.0.extend_from_reader(read, fill_length)
+    }
+    pub fn can_drain_to_window_size(&self) -> Option<usize> {
+        self.0.can_drain_to_window_size()
+    }
+    pub fn can_drain(&self) -> usize {
+        self.0.can_drain()
+    }
+    pub fn drain_to_window_size(&mut self) -> Option<Vec<u8>> {
+        self.0.drain_to_window_size()
+    }
+    pub fn drain_to_window_size_writer(&mut self, sink: impl Write) -> Result<usize, Error> {
+        self.0.drain_to_window_size_writer(sink)
+    }
+    pub fn drain(&mut self) -> Vec<u8> {
+        self.0.drain()
+    }
+    pub fn drain_to_writer(&mut self, sink: impl Write) -> Result<usize, Error> {
+        self.0.drain_to_writer(sink)
+    }
+    pub fn read_all(&mut self, target: &mut [u8]) -> Result<usize, Error> {
+        self.0.read_all(target)
+    }
+    pub fn read(&mut self, target: &mut [u8]) -> Result<usize, Error> {
+        Read::read(&mut self.0, target)
+    }
+    #[cfg(feature = "hash")]
+    pub fn hash_finish(&self) -> u64 {
+        use core::hash::Hasher;
+        self.0.hash.finish()
+    }
+    pub fn ring_state(&self) -> (usize, usize, usize, usize) {
+        self.0.verif_ring_state()
+    }
+    pub fn total_output_counter(&self) -> u64 {
+        self.0.verif_total_output_counter()
+    }
+    pub fn as_slices(&self) -> (&[u8], &[u8]) {
+        self.0.verif_as_slices()
+    }
+}
+
+/// A parsed block header: (last_block, block type 0=raw 1=rle 2=compressed, decompressed_size, content_size)
+pub fn parse_block_header(raw: &[u8]) -> Result<(bool, u8, u32, u32), String> {
+    use crate::blocks::block::BlockType;
+    let mut dec = super::block_decoder::new();
+    let (h, _) = dec.read_block_header(raw).map_err(|e| format!("{e}"))?;
+    let t = match h.block_type {
+        BlockType::Raw => 0,
+        BlockType::RLE => 1,
+        BlockType::Compressed => 2,
+        BlockType::Reserved => 3,
+    };
+    Ok((h.last_block, t, h.decompressed_size, h.content_size))
+}
+
+/// A parsed frame header
+#[derive(Debug, Clone, PartialEq, Eq)]
+pub struct FrameHeaderInfo {
+    pub header_len: u8,
+    pub descriptor: u8,
+    pub window_descriptor: u8,
+    pub single_segment: bool,
+    pub checksum: bool,
+    pub dict_id: Option<u32>,
+    pub frame_content_size: u64,
+    pub window_size: Result<u64, String>,
+}
+
+/// Parse a frame header with the decoder's parser
+pub fn parse_frame_header(raw: &[u8]) -> Result<FrameHeaderInfo, String> {
+    let (h, len) = super::frame::read_frame_header(raw).map_err(|e| format!("{e}"))?;
+    Ok(FrameHeaderInfo {
+        header_len: len,
+        descriptor: h.descriptor.0,
+        window_descriptor: h.verif_window_descriptor(),
+        single_segment: h.descriptor.single_segment_flag(),
+        checksum: h.descriptor.content_checksum_flag(),
+        dict_id: h.dictionary_id(),
+        frame_content_size: h.frame_content_size(),
+        window_size: h.window_size().map_err(|e| format!("{e}")),
+    })
+}
+
+/// A parsed literals section header
+#[derive(Debug, Clone, Copy, PartialEq, Eq)]
+pub struct LiteralsHeaderInfo {
+    pub header_len: u8,
+    /// 0 = raw, 1 = rle, 2 = compressed, 3 = treeless
+    pub ls_type: u8,
+    pub regenerated_size: u32,
+    pub compressed_size: Option<u32>,
+    pub num_streams: Option<u8>,
+}
+
+/// Parse a literals section header with the decoder's parser
+pub fn parse_literals_header(raw: &[u8]) -> Result<LiteralsHeaderInfo, String> {
+    use crate::blocks::literals_section::{LiteralsSection, LiteralsSectionType};
+    let mut section = LiteralsSection::new();
+    let len = section.parse_from_header(raw).map_err(|e| format!("{e}"))?;
+    Ok(LiteralsHeaderInfo {
+        header_len: len,
+        ls_type: match section.ls_type {
+            LiteralsSectionType::Raw => 0,
+            LiteralsSectionType::RLE => 1,
+            LiteralsSectionType::Compressed => 2,
+            LiteralsSectionType::Treeless => 3,
+        },
+        regenerated_size: section.regenerated_size,
+        compressed_size: section.compressed_size,
+        num_streams: section.num_streams,
+    })
+}
+
+/// Parse a sequences section header with the decoder's parser: (header_len, num_sequences, modes byte)
+pub fn parse_sequences_header(raw: &[u8]) -> Result<(u8, u32, Option<u8>), String> {
+    use crate::blocks::sequence_section::{ModeType, SequencesHeader};
+    let mut header = SequencesHeader::new();
+    let len = header.parse_from_header(raw).map_err(|e| format!("{e}"))?;
+    let mode_bits = |m: ModeType| match m {
+        ModeType::Predefined => 0u8,
+        ModeType::RLE => 1,
+        ModeType::FSECompressed => 2,
+        ModeType::Repeat => 3,
+    };
+    let modes = header.modes.map(|m| {
+        mode_bits(m.ll_mode()) << 6 | mode_bits(m.of_mode()) << 4 | mode_bits(m.ml_mode()) << 2
+    });
+    Ok((len, header.num_sequences, modes))
+}
+
+/// The huffman state a literals section decoder carries from block to block
+pub struct HufScratch(super::scratch::HuffmanScratch);
+
+impl Default for HufScratch {
+    fn default() -> Self {
+        Self::new()
+    }
+}
+
+impl HufScratch {
+    pub fn new() -> Self {
+        HufScratch(super::scratch::HuffmanScratch::new())
+    }
+    pub fn table(&self) -> &crate::huff0::HuffmanTable {
+        &self.0.table
+    }
+}
+
+/// Decode a complete literals section (header + content) with the decoder's literals section decoder.
+/// `raw` must start at the literals header. Returns the literals and the number of bytes consumed (header included).
+pub fn decode_literals_section(
+    raw: &[u8],
+    scratch: &mut HufScratch,
+) -> Result<(Vec<u8>, usize), String> {
+    use crate::blocks::literals_section::{LiteralsSection, LiteralsSectionType};
+    let mut section = LiteralsSection::new();
+    let header_len = section.parse_from_header(raw).map_err(|e| format!("{e}"))? as usize;
+    let raw = &raw[header_len..];
+    // same computation as in BlockDecoder::decompress_block
+    let upper_limit_for_literals = match section.compressed_size {
+        Some(x) => x as usize,
+        None => match section.ls_type {
+            LiteralsSectionType::RLE => 1,
+            LiteralsSectionType::Raw => section.regenerated_size as usize,
+            _ => return Err(String::from("no compressed size")),
+        },
+    };
+    if raw.len() < upper_limit_for_literals {
+        return Err(format!(
+            "MalformedSectionHeader expected {upper_limit_for_literals} have {}",
+            raw.len()
+        ));
+    }
+    let mut target = Vec::new();
+    let used = super::literals_section_decoder::decode_literals(
+        &section,
+        &mut scratch.0,
+        &raw[..upper_limit_for_literals],
+        &mut target,
+    )
+    .map_err(|e| format!("{e}"))?;
+    Ok((target, header_len + used as usize))
+}
+
+/// The FSE state a sequences section decoder carries from block to block
+pub struct FseScratch(super::scratch::FSEScratch);
+
+impl Default for FseScratch {
+    fn default() -> Self {
+        Self::new()
+    }
+}
+
+impl FseScratch {
+    pub fn new() -> Self {
+        FseScratch(super::scratch::FSEScratch::new())
+    }
+    pub fn ll(&self) -> &crate::fse::FSETable {
+        &self.0.literal_lengths
+    }
+    pub fn of(&self) -> &crate::fse::FSETable {
+        &self.0.offsets
+    }
+    pub fn ml(&self) -> &crate::fse::FSETable {
+        &self.0.match_lengths
+    }
+    pub fn rle(&self) -> (Option<u8>, Option<u8>, Option<u8>) {
+        (self.0.ll_rle, self.0.of_rle, self.0.ml_rle)
+    }
+}
+
+/// Decode a complete sequences section (header + tables + bitstream) with the decoder's sequence section decoder.
+/// Returns (ll, ml, offset value) per sequence.
+pub fn decode_sequences_section(
+    raw: &[u8],
+    scratch: &mut FseScratch,
+) -> Result<Vec<(u32, u32, u32)>, String> {
+    use crate::blocks::sequence_section::SequencesHeader;
+    let mut header = SequencesHeader::new();
+    let len = header.parse_from_header(raw).map_err(|e| format!("{e}"))? as usize;
+    let raw = &raw[len..];
+    if header.num_sequences == 0 {
+        if !raw.is_empty() {
+            return Err(String::from("ExtraBits"));
+        }
+        return Ok(Vec::new());
+    }
+    let mut target = Vec::new();
+    super::sequence_section_decoder::decode_sequences(&header, raw, &mut scratch.0, &mut target)
+        .map_err(|e| format!("{e}"))?;
+    Ok(target.iter().map(|s| (s.ll, s.ml, s.of)).collect())
+}
